@@ -10,7 +10,7 @@ use crate::families::{self, Family};
 use crate::framework::*;
 use crate::ops::{self, ObjKind, Op, SimFile};
 use crate::rng::{run_seed, Hasher64, Rng};
-use crate::seams::SimCtl;
+use crate::seams::{SimCtl, SimLog, SimObjCache, SimStmCache};
 use pdf::object::*;
 use pdf::primitive::Primitive;
 use serde_json::{json, Value as J};
@@ -270,6 +270,23 @@ fn open_plain(bytes: &[u8], cached: bool, password: &[u8]) -> Result<SimFile, pd
     ops::open(bytes, &ctl, false, password)
 }
 
+/// The base of a history: a stored file, or (family "fresh") a document that has never been saved:
+/// an empty storage in which a one-page catalog was just created through the library's builder.
+fn open_base(base: &Doc, cached: bool) -> Result<SimFile, pdf::PdfError> {
+    if base.family != "fresh" {
+        return open_plain(&base.bytes, cached, &base.password);
+    }
+    use pdf::build::{CatalogBuilder, PageBuilder};
+    let ctl = SimCtl::new(cached, cached);
+    let mut storage = pdf::file::FileOptions::uncached().cache(SimObjCache(ctl.clone()), SimStmCache(ctl.clone())).log(SimLog(ctl.clone())).storage();
+    let mut page = PageBuilder::default();
+    page.size(120.0, 80.0);
+    let catalog = CatalogBuilder::from_pages(vec![page]).build(&mut storage)?;
+    let root = storage.create(catalog)?;
+    let trailer = pdf::file::Trailer { root, encrypt_dict: None, size: 0, id: vec!["fresh".into(), "fresh".into()], info_dict: None, prev_trailer_pos: None };
+    Ok(pdf::file::File::new(storage, trailer))
+}
+
 impl<'a> Exec<'a> {
     fn flags(&self) -> String {
         let mut f = vec![];
@@ -506,7 +523,9 @@ impl<'a> Exec<'a> {
 
     fn reload(&mut self) -> Result<(), (String, String)> {
         self.out.reloads += 1;
-        match open_plain(&self.durable, self.case.cached, &self.case.base.password) {
+        // a document that was never saved has no durable state: a restart starts over
+        let reopened = if self.durable.is_empty() && self.case.base.family == "fresh" { open_base(&self.case.base, self.case.cached) } else { open_plain(&self.durable, self.case.cached, &self.case.base.password) };
+        match reopened {
             Ok(f) => {
                 self.file = f;
                 self.promises.clear();
@@ -563,16 +582,21 @@ impl<'a> Exec<'a> {
 pub fn run_case(case: &Case, scratch: &str) -> Outcome {
     let mut out = Outcome { violation: None, trace: 0, saves_ok: 0, saves_failed_expected: 0, env_faults: 0, reloads: 0, reads: 0, writes: 0, second_saves: 0 };
     clear_last_panic();
-    let file = match open_plain(&case.base.bytes, case.cached, &case.base.password) {
+    let file = match open_base(&case.base, case.cached) {
         Ok(f) => f,
-        Err(_) => return out,
+        Err(e) => {
+            if case.base.family == "fresh" {
+                out.violation = Some(("a one-page document cannot be built in an empty storage".into(), format!("{}", e).chars().take(300).collect()));
+            }
+            return out;
+        }
     };
     // record the base file's answers on a fresh uncached document
     let mut base_answers = BTreeMap::new();
     let mut base_stream_answers = BTreeMap::new();
     let base_pages;
     {
-        let fresh = match open_plain(&case.base.bytes, false, &case.base.password) {
+        let fresh = match open_base(&case.base, false) {
             Ok(f) => f,
             Err(_) => return out,
         };
@@ -675,7 +699,7 @@ fn gen_val(rng: &mut Rng, depth: usize) -> Val {
     match pick {
         0 => Val::Int(rng.range(-1000, 1000)),
         1 => Val::Int(*rng.pick(&[0, 1, -1, i32::MAX as i64, i32::MIN as i64 + 1, 65536])),
-        2 => Val::Real(*rng.pick(&[0.5, -12.25, 1000.125, 0.0625, 3.75])),
+        2 => Val::Real(*rng.pick(&[0.5, -12.25, 1000.125, 0.0625, 3.75, 0.00005, -0.00000015, 123456.79, 16777216.0, 1e16, 3.0e38])),
         3 => Val::Bool(rng.coin()),
         4 => Val::Name(rng.pick(&["Alpha", "B2", "Type", "x-y", "N.1"]).to_string()),
         5 => Val::Str(rng.pick(&[&b"hello"[..], b"(paren) \\ back", b"", b"\xfe\xff\x00A", b"two\nlines"]).to_vec()),
@@ -780,6 +804,10 @@ impl C09 {
                 bases.push(Arc::new(d));
             }
         }
+        // a document that has never been saved (twice: it gets a share comparable to a family)
+        for _ in 0..2 {
+            bases.push(Arc::new(Doc::from_bytes("fresh-storage", "fresh", vec![], b"")));
+        }
         self.pool = Some(pool);
         self.bases = bases;
         let work = std::env::var("VERIF_WORKDIR").unwrap_or_else(|_| format!("{}/.work", std::env::var("VERIF_ROOT").unwrap_or_else(|_| "/verif".into())));
@@ -814,10 +842,13 @@ impl C09 {
             if contains_null_in_dict(&v) {
                 continue;
             }
-            if roundtrip_safe(&v) {
-                return WV::Val(v);
+            // a value that the library's own serializer and parser do not carry through as a
+            // dictionary entry is counted (diagnostic for the report) and written all the same: if it
+            // does not read back after save, that is a violation here
+            if !roundtrip_safe(&v) {
+                self.excluded_values += 1;
             }
-            self.excluded_values += 1;
+            return WV::Val(v);
         }
         WV::Val(Val::Int(1))
     }
@@ -957,7 +988,7 @@ impl Check for C09 {
             level: "exploration",
             rule: "one run = one history of 1-20 operations over {create, update(base object | earlier reference), promise, fulfil, read, save, failing save (unfulfilled promise / stream still in the source file / refusing sink), dirty restart} on a base file (corpus files <200 KB and generated files with classic or stream xref, compressed objects, 0-1019 junk bytes before the header), caches on or off, always closed by: replace offending objects, fulfil promises, save, reload. Checked step by step against a map model: read-your-writes, prefix preservation, every written reference (passed and handed) and every untouched object after reload. Non-trivial = at least one successful save followed by a reload comparison; distinct = hash of the operation-kind sequence and configuration",
             assumptions: vec![
-                "written values are drawn from the serializer's round-trip-safe subset (validated per value as a dictionary entry; others are excluded and counted): value-level serialisation is C04's subject, how save frames an indirect object is judged here".into(),
+                "written values: integers, reals (incl. 5e-5, 1.5e-7, 1e16, 3e38), names, strings, references, null, arrays and dictionaries up to depth 2, streams, typed pages; integers and reals of equal numeric value are identified when compared; a null dictionary entry is not written (it means absent)".into(),
                 "update targets in base files exclude page-tree nodes, object streams, cross-reference streams, non-dictionary objects, trailer-referenced objects and every object the document reads while it is opened (observed through the Log seam): overwriting those with arbitrary values makes the document itself invalid, which is the caller's doing".into(),
                 "untouched objects of large base files are compared on a deterministic sample of 48 objects".into(),
                 "durability is judged on the bytes File::save_to wrote to a scratch file; the file system itself is real (page cache), only the refusing sinks (/dev/full, missing directory) are injected".into(),
@@ -996,7 +1027,7 @@ impl Check for C09 {
         rep.count("writes", out.writes);
         rep.count("second_saves", out.second_saves);
         rep.count(if i % 2 == 1 { "fault_batch_runs" } else { "fault_free_batch_runs" }, 1);
-        rep.count("values_excluded_not_roundtrip_safe", std::mem::take(&mut self.excluded_values));
+        rep.count("values_not_roundtrip_safe_as_dictionary_entry", std::mem::take(&mut self.excluded_values));
         if let Some((sig, detail)) = out.violation {
             let (c, d, final_sig) = self.shrink(&case, &sig);
             rep.violations.push(Violation { signature: final_sig, detail: if d.is_empty() { detail } else { d }, case: c.to_json() });
